@@ -27,7 +27,7 @@ Definition left_contrib (brk : bool) (a : aformula_annot) : option contrib :=
       match an_dir a with
       | DUniversal => Some (mkcontrib [into_problem_formula a PAxiom] [] [] [] [] [])
       | DForward => Some (mkcontrib [] [into_problem_formula a PAxiom] [] [] [] [])
-      | DBackward => Some (mkcontrib [] [] [] [] [] [WInconsistentDirectionAnnotation])
+      | DBackward => Some (mkcontrib [] [] [] [] [] [WInconsistentDirectionAnnotation a])
       end
   | RSpec =>
       Some (mkcontrib [] (if dir_forward (an_dir a) then [into_problem_formula a PAxiom] else []) []
@@ -39,7 +39,7 @@ Definition right_contrib (brk : bool) (a : aformula_annot) : option contrib :=
   | RAssumption =>
       match an_dir a with
       | DUniversal => Some (mkcontrib [into_problem_formula a PAxiom] [] [] [] [] [])
-      | DForward => Some (mkcontrib [] [] [] [] [] [WInconsistentDirectionAnnotation])
+      | DForward => Some (mkcontrib [] [] [] [] [] [WInconsistentDirectionAnnotation a])
       | DBackward => Some (mkcontrib [] [] [] [into_problem_formula a PAxiom] [] [])
       end
   | RSpec =>
